@@ -1143,7 +1143,8 @@ class Evaluator:
                     Tup((Const(k), v)) for k, v in sorted(kwargs.items())))
             if f.fi.is_abstract and f.qual not in self.hooks:
                 return App('method:' + f.fi.name, tuple(
-                    ([f.bound] if f.bound is not None else []) + args))
+                    ([f.bound] if f.bound is not None else []) + args) + tuple(
+                    Tup((Const(k), v)) for k, v in sorted(kwargs.items())))
             a = ([f.bound] if f.bound is not None else []) + args
             return self.call(f.fi, a, kwargs, fr.depth + 1)
         if isinstance(f, ClassRef):
